@@ -60,10 +60,18 @@ theorem client_source (s : Node) (e : Event) (c : Nat) (m : ToClient) (r : LockR
     repeat' split at h
     all_goals simp at h
   | request d short q =>
-    simp only [step, stepRequest] at h
+    simp only [step] at h
+    rcases will_or_not q with ⟨wct, wcmd, rfl⟩ | hq
+    · rw [stepRequest_will] at h
+      split at h
+      · simp at h
+      · obtain ⟨_, rfl⟩ := willConn_client h
+        rcases hc with hc | hc | hc <;> cases hc
+    rw [stepRequest_eq hq] at h
     split at h
     · simp at h
     · rename_i x hx
+      simp only at h
       obtain ⟨rfl, hb⟩ := applyConn_client h
       rcases hb with hb | ⟨r', hb, rfl⟩ | ⟨ct, cmd, l, n, pre, aw, hb⟩ | ⟨rid', cid, hb, rfl⟩
       · cases q with
@@ -82,6 +90,7 @@ theorem client_source (s : Node) (e : Event) (c : Nat) (m : ToClient) (r : LockR
           rcases classify_call_shape (s := s) (x := x) (short := short) (rid := rid) (fw := fw) with h1 | h1 | h1 | h1 | ⟨_, _, _, h1, _⟩ <;>
             rw [h1] at hb <;> cases hb
           rcases hc with hc | hc | hc <;> cases hc
+        | will wct wcmd => exact absurd rfl (hq wct wcmd)
         | other =>
           rcases classify_other_shape (s := s) (x := x) (short := short) with h1 | h1 | h1 <;> rw [h1] at hb <;> cases hb
       · cases q with
@@ -95,6 +104,7 @@ theorem client_source (s : Node) (e : Event) (c : Nat) (m : ToClient) (r : LockR
         | call rid fw =>
           rcases classify_call_shape (s := s) (x := x) (short := short) (rid := rid) (fw := fw) with h1 | h1 | h1 | h1 | ⟨_, _, _, h1, _⟩ <;>
             rw [h1] at hb <;> cases hb
+        | will wct wcmd => exact absurd rfl (hq wct wcmd)
         | other =>
           rcases classify_other_shape (s := s) (x := x) (short := short) with h1 | h1 | h1 <;> rw [h1] at hb <;> cases hb
       · -- the acknowledgement of a text PUSH: `+OK`, not a lock result
@@ -112,6 +122,7 @@ theorem client_source (s : Node) (e : Event) (c : Nat) (m : ToClient) (r : LockR
         | call rid fw =>
           rcases classify_call_shape (s := s) (x := x) (short := short) (rid := rid) (fw := fw) with h1 | h1 | h1 | h1 | ⟨_, _, _, h1, _⟩ <;>
             rw [h1] at hb <;> cases hb
+        | will wct wcmd => exact absurd rfl (hq wct wcmd)
         | other =>
           rcases classify_other_shape (s := s) (x := x) (short := short) with h1 | h1 | h1 <;> rw [h1] at hb <;> cases hb
       · rcases hc with hc | hc | hc <;> cases hc
